@@ -56,7 +56,11 @@ def obs_lit(o):
 def cross_weighted(c):
     """classifier of known finding report.cross_weight: an instantiated parameter set has a cross with weight != 1"""
     used = {op[2] for op in c["ops"] if op[0] == "new"}
-    return any(x.get("weight") not in (None, 1) for pi in used for x in c["params"][pi]["crosses"])
+
+    def eff(p, x):
+        w = x.get("weight")
+        return w if w is not None else (p.get("cg_options") or {}).get("weight")
+    return any(eff(c["params"][pi], x) not in (None, 1) for pi in used for x in c["params"][pi]["crosses"])
 
 
 def with_reports(case, rnd):
